@@ -1,5 +1,6 @@
 //@ tu: libxcm/core/attr_path.c
 //@ enforce: attr_pcomp_parse_index
+//@ defs: -DXV_AP_STRICT_INDEX
 //@ props: C10 C19
 //@ expect: postcondition>=6 canary=4
 #include "_unit.h"
